@@ -4091,7 +4091,12 @@ class SchemaValidator:
                 connection = schema_import["connections"][i]
                 ref_type = utils.parse_ref_type(connection["to_ref"])
 
-                new_checkpoint_alias = f"_stitch_{import_id}_{i}"
+                # the same file may be imported by several schemas: the importer keeps the aliases apart
+                new_checkpoint_alias = (
+                    f"_stitch_{import_id}_{i}"
+                    if importer_id is None
+                    else f"_stitch_{importer_id}_{import_id}_{i}"
+                )
                 new_checkpoint_description = (
                     f"Stitched connection from imported schema: {import_id}"
                 )
